@@ -135,6 +135,39 @@ theorem C14_test_runner_derivation_untouched (st : State) :
     · rw [hv name]; exact varObs_agree hA hC hb name
     · rw [hp pn d]; exact paramObs_agree hA hC hb pn d
 
+/-- **`load_extension` on a reform leaves its baseline untouched (repair F-C14f).** For every
+    reform `R` of `b` — whatever its `apply()` did, so whether or not it still shares `b`'s
+    parameter tree — and every extension: after `R.load_extension(e)` (variables added to `R`,
+    parameters merged into a FRESH copy of the tree `R` held, because `R` has a baseline) every
+    object that existed before the reform was made is the same, and every observation of every
+    system that existed — `b` first — is unchanged. The same holds for clones, chains, extensions
+    loaded from inside `apply()`, in any number and order: `Mod.loadExt` is one of the modifications
+    of `C14_base_untouched`. -/
+theorem C14_load_extension_leaves_baseline (h : Heap) (b : Oid) (mods : List Mod) (e : Ext) (h1 : Heap)
+    (R : Oid) (hr : reformSys h b mods = (h1, .ok R)) :
+    (∀ i, i < h.next → (loadExtension h1 R e).1.look i = h.look i) ∧
+    (Closed h → ∀ z, z < h.next → sysObs (loadExtension h1 R e).1 z = sysObs h z) := by
+  have hinv : Inv h.next h := fun X o hX hl => by rw [look_none_of_ge h hX] at hl; cases hl
+  obtain ⟨g1, hR⟩ := good_reformSys hinv (Nat.le_refl _) b mods
+  rw [hr] at g1 hR
+  have hRge : h.next ≤ R := by rw [hR R rfl]; exact Nat.le_refl _
+  have g2 := good_loadExtension g1.2.1 g1.2.2 hRge e
+  have f := (g1.trans g2).1
+  exact ⟨f.1, fun hC z hz => sysObs_agree f.1 hC hz⟩
+
+/-- two parameter-neutral reforms stacked on the base, all three holding the same tree; each loads
+    an extension directly (the second one no longer shares with its immediate baseline, which has
+    taken its copy): the base never sees `town` nor `city` -/
+example :
+    let x2 : Ext := ⟨"x2", [], [("city", [⟨733773, some "7"⟩])]⟩
+    let st' := run C14ex.base [.reform 0 [], .reform 1 [], .modify 1 (.loadExt C14ex.ext1), .modify 2 (.loadExt x2),
+                               .reform 0 [.loadExt C14ex.ext1]]
+    st'.systems.length = 4 ∧
+    (st'.systems.map fun X => paramObs st'.heap X "town" 736400) = [none, some "100", none, some "100"] ∧
+    (st'.systems.map fun X => paramObs st'.heap X "city" 736400) = [none, none, some "7", none] ∧
+    (st'.systems.map fun X => (varObs st'.heap X "town_allowance").isSome) = [false, true, false, true] := by
+  decide +kernel
+
 /-- the derivations really happen: three systems are derived (the third request is a cache hit), the
     extension's parameter is read in each of them — and not in the baseline, which a second
     derivation could otherwise not extend again (`add_child` would raise) -/
@@ -578,6 +611,7 @@ end OFCore
 #print axioms OFCore.C14_base_untouched
 #print axioms OFCore.C14_base_calculations_unchanged
 #print axioms OFCore.C14_test_runner_derivation_untouched
+#print axioms OFCore.C14_load_extension_leaves_baseline
 #print axioms OFCore.C14_clone_is_copy
 #print axioms OFCore.C14_copy_independent_of_source
 #print axioms OFCore.C14_modification_local
